@@ -1,7 +1,94 @@
-(* C03 — placeholder until Sandbox/SandboxProofs.v lands. *)
-From Coq Require Import List NArith Bool.
-From PyFS Require Import Base.PyStr Base.Outcome Path.PathModel Sandbox.Sandbox.
+(* C03 — No path argument escapes a filesystem's root (sandboxing).
+   For every string: what OSFS hands to the operating system is the root extended by whole,
+   clean components; what a SubFS (at any nesting depth) hands to its parent lies below its
+   sub-directory; otherwise IllegalBackReference. MountFS routing is C17. *)
+From Coq Require Import List NArith Bool Arith.
+From PyFS Require Import Base.PyStr Base.Outcome Path.PathModel Path.PathSpec Sandbox.Sandbox Sandbox.SandboxProofs.
 Import ListNotations.
-Theorem C03_escape_example : osfs_syspath [] [dot; dot; slash; 120%N] = Err IllegalBackReference.
-Proof. reflexivity. Qed.
-Print Assumptions C03_escape_example.
+
+Theorem C03_validate_spec :
+  forall p,
+  validate p = match resolve (comps p) with
+               | Some cs => Ok (to_path true cs)
+               | None => Err IllegalBackReference
+               end.
+Proof. exact validate_spec. Qed.
+Print Assumptions C03_validate_spec.
+
+Theorem C03_validate_components_good :
+  forall p q, validate p = Ok q ->
+  exists cs, Forall good cs /\ q = to_path true cs.
+Proof. exact validate_components_good. Qed.
+Print Assumptions C03_validate_components_good.
+
+Theorem C03_osfs_syspath_inside :
+  forall root p sc,
+  osfs_syspath root p = Ok sc ->
+  exists cs, Forall good cs /\ sc = root ++ cs /\ resolve (comps p) = Some cs.
+Proof. exact osfs_syspath_inside. Qed.
+Print Assumptions C03_osfs_syspath_inside.
+
+Theorem C03_osfs_syspath_escape_rejected :
+  forall root p,
+  resolve (comps p) = None -> osfs_syspath root p = Err IllegalBackReference.
+Proof. exact osfs_syspath_escape_rejected. Qed.
+Print Assumptions C03_osfs_syspath_escape_rejected.
+
+Theorem C03_subfs_inside :
+  forall sub p q,
+  Forall good sub ->
+  subfs_delegate (to_path true sub) p = Ok q ->
+  exists cs, Forall good cs /\ q = to_path true (sub ++ cs) /\ resolve (comps p) = Some cs.
+Proof. exact subfs_inside. Qed.
+Print Assumptions C03_subfs_inside.
+
+Theorem C03_subfs_escape_rejected :
+  forall sub p,
+  Forall good sub -> resolve (comps p) = None ->
+  subfs_delegate (to_path true sub) p = Err IllegalBackReference.
+Proof. exact subfs_escape_rejected. Qed.
+Print Assumptions C03_subfs_escape_rejected.
+
+Theorem C03_subfs_nested_inside :
+  forall (subs : list (list str)) p q,
+       Forall (Forall good) subs ->
+       nested_delegate (map (to_path true) subs) p = Ok q ->
+       exists cs, Forall good cs /\ q = to_path true (concat (rev subs) ++ cs).
+   is false: counterexample subs = [], p = "" (or "a", or ".."): q = p does not start
+   with "/", whereas to_path true cs always does.  (There is no SubFS at nesting depth 0,
+   so nothing is lost.)  True version: at least one SubFS level (subs <> []); it is also
+   strengthened to say that cs are the resolved components of p.  For depth 0 see
+   subfs_nested_inside_validated below: true for any depth once p is a validated path. *)
+Theorem subfs_nested_inside : forall (subs : list (list str)) p q,
+  subs <> [] ->
+  Forall (Forall good) subs ->
+  nested_delegate (map (to_path true) subs) p = Ok q ->
+  exists cs, Forall good cs /\ q = to_path true (concat (rev subs) ++ cs)
+             /\ resolve (comps p) = Some cs.
+Proof. exact subfs_nested_inside. Qed.
+Print Assumptions C03_subfs_nested_inside.
+
+Theorem C03_subfs_nested_inside_validated :
+  forall (subs : list (list str)) p0 p q,
+  Forall (Forall good) subs ->
+  validate p0 = Ok p ->
+  nested_delegate (map (to_path true) subs) p = Ok q ->
+  exists cs, Forall good cs /\ q = to_path true (concat (rev subs) ++ cs)
+             /\ resolve (comps p0) = Some cs.
+Proof. exact subfs_nested_inside_validated. Qed.
+Print Assumptions C03_subfs_nested_inside_validated.
+
+Theorem C03_subfs_nested_escape_rejected :
+  forall (subs : list (list str)) p,
+  subs <> [] -> Forall (Forall good) subs -> resolve (comps p) = None ->
+  nested_delegate (map (to_path true) subs) p = Err IllegalBackReference.
+Proof. exact subfs_nested_escape_rejected. Qed.
+Print Assumptions C03_subfs_nested_escape_rejected.
+
+Theorem C03_subfs_never_reaches_sibling :
+  forall sub other p q,
+  Forall good sub -> Forall good other -> cprefix sub other = false -> cprefix other sub = false ->
+  subfs_delegate (to_path true sub) p = Ok q ->
+  forall qc, q = to_path true qc -> Forall good qc -> cprefix other qc = false.
+Proof. exact subfs_never_reaches_sibling. Qed.
+Print Assumptions C03_subfs_never_reaches_sibling.
